@@ -194,4 +194,52 @@ theorem decAux_decodeNatural_spec {b : Bytes} {u n : Nat} {rest : Bytes}
           obtain ⟨rfl, rfl, rfl⟩ := h
           simp; omega
 
+/-- the model's `decodeReal` leaves `b[n:]` for some `0 < n ≤ len b` -/
+theorem decAux_decodeReal_rest {b : Bytes} {v : F32} {rest : Bytes} (h : Dec.decodeReal b = some (v, rest)) :
+    ∃ n, 0 < n ∧ n ≤ b.length ∧ rest = b.drop n := by
+  unfold Dec.decodeReal at h
+  cases hn : Dec.decodeNatural b with
+  | none => simp [hn] at h
+  | some r =>
+    obtain ⟨u, n, rest'⟩ := r
+    obtain ⟨hn', _, hl, rfl⟩ := decAux_decodeNatural_spec hn
+    simp only [hn] at h
+    refine ⟨n, by omega, hl, ?_⟩
+    repeat' split at h
+    all_goals
+      simp only [Option.some.injEq, Prod.mk.injEq] at h
+      exact h.2.symm
+
+/-- the model's `decodeCoordinate` leaves `b[n:]` for some `0 < n ≤ len b` -/
+theorem decAux_decodeCoordinate_rest {b : Bytes} {v : F32} {rest : Bytes} (h : Dec.decodeCoordinate b = some (v, rest)) :
+    ∃ n, 0 < n ∧ n ≤ b.length ∧ rest = b.drop n := by
+  unfold Dec.decodeCoordinate at h
+  cases hn : Dec.decodeNatural b with
+  | none => simp [hn] at h
+  | some r =>
+    obtain ⟨u, n, rest'⟩ := r
+    obtain ⟨hn', _, hl, rfl⟩ := decAux_decodeNatural_spec hn
+    simp only [hn] at h
+    refine ⟨n, by omega, hl, ?_⟩
+    repeat' split at h
+    all_goals
+      simp only [Option.some.injEq, Prod.mk.injEq] at h
+      exact h.2.symm
+
+/-- the model's `decodeZeroToOne` leaves `b[n:]` for some `0 < n ≤ len b` -/
+theorem decAux_decodeZeroToOne_rest {b : Bytes} {v : F32} {rest : Bytes} (h : Dec.decodeZeroToOne b = some (v, rest)) :
+    ∃ n, 0 < n ∧ n ≤ b.length ∧ rest = b.drop n := by
+  unfold Dec.decodeZeroToOne at h
+  cases hn : Dec.decodeNatural b with
+  | none => simp [hn] at h
+  | some r =>
+    obtain ⟨u, n, rest'⟩ := r
+    obtain ⟨hn', _, hl, rfl⟩ := decAux_decodeNatural_spec hn
+    simp only [hn] at h
+    refine ⟨n, by omega, hl, ?_⟩
+    repeat' split at h
+    all_goals
+      simp only [Option.some.injEq, Prod.mk.injEq] at h
+      exact h.2.symm
+
 end Ivg.Gen.Tie
